@@ -19,7 +19,7 @@ import (
 //
 // Space: every name spelling of <= maxSeg segments over {a,b,.,..,""} x
 // {relative,absolute} x {trailing slash or not}, used at every entry point, from
-// referrers at directory depth 0..2, under 3 extension lists. Oracle: the exact
+// referrers at directory depth 0..2, under 3 extension lists, with development mode off and on. Oracle: the exact
 // request trace predicted by a reference resolver built on path.Join/Clean.
 
 type recLoader struct {
@@ -142,6 +142,7 @@ func c15Files() map[string]string {
 }
 
 type c15Case struct {
+	Dev      bool     `json:"development_mode,omitempty"`
 	Entry    string   `json:"entry"`
 	Referrer string   `json:"referrer"`
 	Name     string   `json:"name"`
@@ -166,6 +167,9 @@ func c15Run(c *c15Case, files map[string]string) (got, want []string, unspecifie
 	}
 	ch := &recCache{m: map[string]*jet.Template{}, trace: &ld.trace, lmu: &ld.mu}
 	opts := []jet.Option{jet.WithCache(ch)}
+	if c.Dev {
+		opts = append(opts, jet.InDevelopmentMode())
+	}
 	if c.Exts != nil {
 		opts = append(opts, jet.WithTemplateNameExtensions(c.Exts))
 	}
@@ -338,11 +342,11 @@ func C15(r *core.Run) map[string]interface{} {
 	}
 	sp := c15Spellings(maxSeg)
 	files := c15Files()
-	total := core.Product(len(sp), len(c15Entries), len(c15Referrers), len(c15ExtLists))
+	total := core.Product(len(sp), len(c15Entries), len(c15Referrers), len(c15ExtLists), 2)
 	r.Rule = "every name spelling (segments over {a,b,.,..,empty}, relative/absolute, trailing slash) x entry point x referrer depth x extension list; non-trivial = spelling differs from its clean resolution; distinct = distinct observed request traces"
 	r.ParallelFor(total, func(i int64) {
-		ix := core.Radix(i, len(c15Entries), len(c15Referrers), len(c15ExtLists), len(sp))
-		c := &c15Case{Entry: c15Entries[ix[0]], Referrer: c15Referrers[ix[1]], Exts: c15ExtLists[ix[2]], Name: sp[ix[3]]}
+		ix := core.Radix(i, len(c15Entries), len(c15Referrers), len(c15ExtLists), len(sp), 2)
+		c := &c15Case{Entry: c15Entries[ix[0]], Referrer: c15Referrers[ix[1]], Exts: c15ExtLists[ix[2]], Name: sp[ix[3]], Dev: ix[4] == 1}
 		got, sig, what := c15Check(c, files)
 		r.Eval()
 		if what != "" {
